@@ -194,6 +194,16 @@ func (n *neighbour) NeedsTable(ctx context.Context, uri string) (bool, error) {
 
 // assembly management ----------------------------------------------------------------------------
 
+// askNeedsTable asks like the RPC server does: a panic of the handler is a failed request.
+func askNeedsTable(n *ophar.Node, uri string) (needs bool, err error) {
+	defer func() {
+		if p := recover(); p != nil {
+			err = fmt.Errorf("request handler panicked: %v", p)
+		}
+	}()
+	return n.Op.HandleNeedsTable(uri), nil
+}
+
 // deployAssembly starts n fresh operators and deploys them from the given job checkpoint (nil = empty).
 // ackOrder permutes the recorded operator checkpoints (the order in which the job happened to record them).
 func (e *multiEnv) deployAssembly(n int, from *jobCkpt, reuseIDs bool) {
@@ -291,6 +301,16 @@ func (e *multiEnv) deployAssembly(n int, from *jobCkpt, reuseIDs bool) {
 		var mine []*snapshotpb.OperatorCheckpoint
 		if from != nil {
 			mine = sliceu.Pick(ckpts, assignments[i])
+		}
+		// A neighbour that is deployed earlier may already compact shared tables away and ask this operator, which
+		// has not loaded anything yet, whether it needs a table: it cannot know, so it must not answer a definite
+		// "no" (an error, or a failing request, keeps the file).
+		if from != nil && e.faults {
+			needs, err := askNeedsTable(s.node, mine[0].DkvFileUri+".probe.sst")
+			if err == nil && !needs {
+				e.c.Fail("needs-table-answered-before-deploy", e.wit(), "operator %s has been started but not deployed yet (it is about to restore %d checkpoints); asked NeedsTable it answers a definite false instead of failing: the neighbour that asks deletes the table", ids[i], len(mine))
+			}
+			e.c.Feat("needs_table_probes_before_deploy", 1)
 		}
 		if err := s.node.Deploy(ids, e.senders, e.keyGroups, e.location, mine); err != nil {
 			e.c.Fail("deploy-error", e.wit(), "HandleDeploy(%s): %v", ids[i], err)
